@@ -1,3 +1,5 @@
+import zlib
+
 from inspect import getmodule
 from collections import abc
 from pathlib import Path
@@ -15,6 +17,44 @@ from coba.primitives import Learner, Environment, Evaluator
 from coba.utilities import PackageChecker
 
 from coba.experiments.process import MakeTasks, ChunkTasks, ProcessTasks
+
+def _drop_partial_record(result_file: str) -> None:
+    """Cut a partly written last record off a result file.
+
+    A run that is killed while it writes a record leaves a last line without its end (in a gz file a
+    last member without its end) behind. Nothing can be restored from such a record and whatever is
+    appended behind it is lost with it so it is removed before the file is used again.
+    """
+    with open(result_file,'rb+') as f:
+        size = f.seek(0,2)
+        keep = 0
+
+        if ".gz" in result_file:
+            #every record is a complete gzip member so we keep everything up to the end of the last complete member
+            f.seek(0)
+            decomp, pos = zlib.decompressobj(16+zlib.MAX_WBITS), 0
+            chunk = f.read(2**20)
+            while chunk:
+                try:
+                    decomp.decompress(chunk)
+                except zlib.error:
+                    break
+                pos  += len(chunk)-len(decomp.unused_data)
+                chunk = decomp.unused_data
+                if decomp.eof:
+                    keep,decomp = pos,zlib.decompressobj(16+zlib.MAX_WBITS)
+                chunk = chunk or f.read(2**20)
+        else:
+            #every record is a line so we keep everything up to the last line end
+            pos = size
+            while pos > 0 and not keep:
+                start = max(0,pos-2**16)
+                f.seek(start)
+                end  = f.read(pos-start).rfind(b'\n')
+                keep = start+end+1 if end >= 0 else 0
+                pos  = start
+
+        if keep != size: f.truncate(keep)
 
 class Experiment:
     """Experiment for environments, learners and evaluators."""
@@ -168,6 +208,9 @@ class Experiment:
             CobaContext.logger = DecoratedLogger([ExceptLog()], CobaContext.logger, [NameLog(),StampLog()] if is_multiproc else [StampLog()])
 
         CobaContext.logger.log("Experiment Started")
+
+        #a run that was killed while it wrote a record leaves a partial record at the end of the file
+        if result_file and Path(result_file).exists(): _drop_partial_record(result_file)
 
         #a run that was killed right after it created the file leaves it empty, there is nothing to restore then
         if result_file and Path(result_file).exists() and Path(result_file).stat().st_size > 0:
